@@ -16,6 +16,9 @@ from props.policy_common import (STRICT_S, STRICT_C, policy_tokens, peer_tokens,
 
 ID = 'C06'
 MODULE = 'SshAudit.Props.C06'
+# the policy-audit extension is shared with C02: its clauses about the error list (entries, expected / actual values, field names) are decided here,
+# the ones about the exit status and the verdict shown under C02 (each failure carries 'for')
+EXTENSIONS = ['props.ext.C02_policyaudit']
 NAMESPACE = 'SshAudit.C06'
 THEOREMS = ['evaluate_fst', 'passed_iff_no_errors', 'sizeBad_iff', 'listBad_iff', 'markerBad_iff', 'hkOk_iff', 'dhOk_iff',
             'evaluate_iff_satisfied', 'subset_monotone', 'larger_keys_monotone', 'strict_marker_mandatory', 'errors_wellformed']
